@@ -135,16 +135,18 @@ type Env struct {
 	cbSeq     atomic.Int64
 }
 
+// A failing callback returns its error together with an ordinary-looking value (like `n, err :=
+// strconv.Atoi(s); return n%2 == 0, err`): the value means nothing then, only the error counts.
 func (e *Env) keep(ctx context.Context, x int) (bool, error) {
 	if err := e.cb(); err != nil {
-		return false, err
+		return x%2 == 0, err
 	}
 	return e.c.Mask&(1<<uint(x%U)) != 0, nil
 }
 
 func (e *Env) mapf(ctx context.Context, x int) (int, error) {
 	if err := e.cb(); err != nil {
-		return 0, err
+		return MapF(x), err
 	}
 	return MapF(x), nil
 }
